@@ -81,6 +81,10 @@ type Tunnel struct {
 	// Incoming requests
 	inbound chan cemi.Message
 
+	// Closed once the most recently parked inbound message has been handed over; only touched by
+	// the server goroutine.
+	inboundSent chan struct{}
+
 	// Goroutine controller
 	done chan struct{}
 	once sync.Once
@@ -355,20 +359,47 @@ func (conn *Tunnel) handleDiscRes(res *knxnet.DiscRes) error {
 }
 
 // pushInbound sends the message through the inbound channel. If the sending blocks, it will launch
-// a goroutine which will do the sending.
+// a goroutine which will do the sending. Messages are handed over in the order of the calls: a
+// parked message waits until the one before it has been handed over.
 func (conn *Tunnel) pushInbound(msg cemi.Message) {
-	select {
-	case conn.inbound <- msg:
+	prev := conn.inboundSent
 
-	default:
-		go func() {
-			// Since this goroutine decouples from the server goroutine, it might try to send when
-			// the server closed the inbound channel. Sending to a closed channel will panic. But we
-			// don't care, because cool guys don't look at explosions.
-			defer func() { recover() }()
-			conn.inbound <- msg
-		}()
+	// Only try a direct hand-over if no earlier message is still parked.
+	parked := false
+	if prev != nil {
+		select {
+		case <-prev:
+		default:
+			parked = true
+		}
 	}
+
+	if !parked {
+		select {
+		case conn.inbound <- msg:
+			return
+
+		default:
+		}
+	}
+
+	sent := make(chan struct{})
+	conn.inboundSent = sent
+
+	go func() {
+		defer close(sent)
+
+		// Since this goroutine decouples from the server goroutine, it might try to send when
+		// the server closed the inbound channel. Sending to a closed channel will panic. But we
+		// don't care, because cool guys don't look at explosions.
+		defer func() { recover() }()
+
+		if prev != nil {
+			<-prev
+		}
+
+		conn.inbound <- msg
+	}()
 }
 
 // handleTunnelReq validates the request, pushes the data to the client and acknowledges the
